@@ -7,6 +7,7 @@ import (
 	"runtime"
 	"sort"
 	"strconv"
+	"strings"
 	"syscall"
 	"time"
 )
@@ -48,6 +49,7 @@ type WorkerOut struct {
 	Leftover   int                  `json:"leftover_goroutine_runs"`
 	WallMs     int64                `json:"wall_ms"`
 	LogHash    uint64               `json:"log_hash"` // hash over all runs' canonical logs (determinism self-test)
+	RunHashes  []uint64             `json:"run_hashes,omitempty"`
 }
 
 func envInt(name string, def int) int {
@@ -158,6 +160,7 @@ func workerMain() int {
 			out.Leftover++
 		}
 		// determinism hash: tape + canonical trace
+		h0 := logH
 		for _, v := range res.Tape {
 			logH = (logH ^ uint64(v)) * 1099511628211
 		}
@@ -171,6 +174,30 @@ func workerMain() int {
 				logH = (logH ^ uint64(res.Viol.Sig[i])) * 1099511628211
 			}
 		}
+		if dt := os.Getenv("VERIF_DUMPTRACE"); dt != "" && dt == fmt.Sprint(idx) {
+			fmt.Fprintf(os.Stderr, "TRACE run %d tape=%v\n%s\nfaults=%v viol=%v\n", idx, res.Tape, strings.Join(res.Detail, "\n"), res.Faults, res.Viol)
+		}
+		if os.Getenv("VERIF_RUNHASHES") != "" {
+			rh := uint64(1469598103934665603)
+			for _, v := range res.Tape {
+				rh = (rh ^ uint64(v)) * 1099511628211
+			}
+			for _, d := range res.Detail {
+				for i := 0; i < len(d); i++ {
+					rh = (rh ^ uint64(d[i])) * 1099511628211
+				}
+			}
+			if res.Viol != nil {
+				for i := 0; i < len(res.Viol.Sig); i++ {
+					rh = (rh ^ uint64(res.Viol.Sig[i])) * 1099511628211
+				}
+			}
+			for _, k := range sortedKeys(res.Faults) {
+				rh = (rh ^ uint64(res.Faults[k])) * 1099511628211
+			}
+			out.RunHashes = append(out.RunHashes, rh)
+		}
+		_ = h0
 		if res.HarnessE != "" {
 			if len(out.Harness) < 5 {
 				out.Harness = append(out.Harness, fmt.Sprintf("%s/%s case=%d seed=%d: %s", p.ID, sc.Name, res.Desc.Case, res.Desc.Seed, res.HarnessE))
@@ -211,7 +238,7 @@ func workerMain() int {
 		if sc.SweepN == nil || (onlyScen != "" && onlyScen != sc.Name) {
 			continue
 		}
-		if !thorough && !sc.QuickSweep {
+		if (!thorough && !sc.QuickSweep) || os.Getenv("VERIF_NOSWEEP") != "" {
 			continue
 		}
 		n := sc.SweepN(thorough)
@@ -233,7 +260,7 @@ func workerMain() int {
 		}
 	}
 	if hasSeeded && os.Getenv("VERIF_SWEEPONLY") == "" {
-		for i := uint64(widx); out.SeededRuns < maxRuns; i += uint64(wn) {
+		for i := uint64(widx) + envU64("VERIF_START", 0); out.SeededRuns < maxRuns; i += uint64(wn) {
 			if time.Since(start) > budget {
 				break
 			}
